@@ -52,6 +52,14 @@ VMODELS = {
     'v10': dict(lib='SAED90', ports=[('a', 'in', None), ('y', 'out', None), ('z', 'out', None), ('k', 'out', (1, 0))], wires=[('w', None), ('v', None), ('u', (1, 0))],
                inst=[('AND2X1', 'g', {'IN1': 'a', 'IN2': 'y', 'Q': 'z'})],
                assigns=[('y', 'w'), ('w', 'v'), ('v', "1'b1"), ('k', 'u'), ('u', "2'b01")]),
+    # range bounds with different numbers of digits (direction must be decided numerically), part of a bus used, ascending range that crosses 9 -> 10
+    'v11': dict(lib='SAED90', ports=[('d', 'in', (11, 8)), ('s', 'in', None), ('q', 'out', (9, 10)), ('r', 'out', (100, 99))], wires=[('t', (10, 9))],
+               inst=[('INVX1', 'g0', {'INP': 'd[11]', 'ZN': 't[10]'}), ('AND2X1', 'g1', {'IN1': 'd[8]', 'IN2': 'd[9]', 'Q': 't[9]'}), ('XOR2X1', 'g2', {'IN1': 'd[10]', 'IN2': 's', 'Q': 'r[99]'})],
+               assigns=[('q', 't'), ('r[100]', 't[9]')]),
+    # sized constants whose value does not fit the size are truncated from the left (2'd6 = 2'b10, 1'd2 = 1'b0, 3'h1D = 3'b101)
+    'v12': dict(lib='SAED90', ports=[('a', 'in', None), ('b', 'in', None), ('y', 'out', (3, 0)), ('p', 'out', None), ('q', 'out', None), ('r', 'out', (2, 0))], wires=[('n', None)],
+               inst=[('NAND2X1', 'g', {'IN1': 'a', 'IN2': 'b', 'QN': 'n'})],
+               assigns=[('y', ['concat', "2'd6", 'n', 'a']), (['concat', 'p', 'q'], ['concat', "1'd2", 'b']), ('r', "3'h1D")]),
     'v8': dict(lib='SAED90', ports=[('a', 'in', (1, 0)), ('z', 'out', (3, 0))], wires=[], inst=[('INVX1', 'g', {'INP': 'a[1]', 'ZN': 'z[3]'})],
                assigns=[(['concat', 'z[2]', 'z[1]', 'z[0]'], ['concat', 'a[0]', "2'b10"])]),
 }
